@@ -26,7 +26,8 @@ META = {
         ' Also: module-level / class-level containers are not mutated (GLOBALS), parse_tracts forwards as given, seed guard, commit guards incl. early returns, Config reader keeps explicit False.'
         ' Round 7: parse() is not skipped because of parse_complete; parse()/preprocess() write no setting and grow no result list in place; TractParser seeding cannot be missing.'
         ' Round 8: parse() does not rewrite the Config object held in .config (alias, setattr).'
-        ' Round 9: `if parent:` is not a truth test of an object whose class defines __len__ / __bool__.'),
+        ' Round 9: `if parent:` is not a truth test of an object whose class defines __len__ / __bool__.'
+        ' Round 11: a logging / formatting call that is handed the object only reads it; other callees are judged by whether they assign to its attributes.'),
     'families': ['GLOBALS', 'COMMIT', 'FRESH', 'TBL', 'FORWARD', 'DEADPARAM', 'SIB-DEFAULTS'],
 }
 
@@ -84,9 +85,35 @@ def check(ctx):
                 if ('commit', True) in gs or callee in ('setattr', 'getattr', 'isinstance'):
                     continue
                 ok = callee == 'TractParser'
+                last = (callee or '').split('.')[-1]
+                root = (callee or '').split('.')[0].lower()
+                if not ok and (last in ('debug', 'info', 'warning', 'error', 'exception', 'log', 'critical')
+                               and ('log' in root or root in ('warnings',))
+                               or callee in ('print', 'repr', 'str', 'id', 'type', 'len', 'hash', 'format', 'vars', 'hasattr')):
+                    ctx.ok('COMMIT', f"{spec}: passes self to {callee}", 'a logging / formatting call reads the object only')
+                    continue
+                if not ok:
+                    # a package function that is handed the object: does it write to it?
+                    node_ = flow.RESOLVER(callee or '', c, fi.node) if flow.RESOLVER and callee else None
+                    cf_ = getattr(node_, '_func', None) if node_ is not None else None
+                    if cf_ is None:
+                        ctx.undecided('COMMIT', f"{spec}: passes self to {callee}", 'callee not resolved; what it does with the object is not followed')
+                        continue
+                    pos = [i for i, a in enumerate(c.args) if isinstance(a, ast.Name) and a.id == 'self']
+                    prm = [p_ for p_ in cf_.params() if p_ not in ('self', 'cls')] if isinstance(c.func, ast.Attribute) else cf_.params()
+                    pname = prm[pos[0]] if pos and pos[0] < len(prm) else None
+                    writes = pname is not None and any(
+                        isinstance(x, ast.Attribute) and isinstance(x.ctx, (ast.Store, ast.Del)) and isinstance(x.value, ast.Name)
+                        and x.value.id == pname for x in ast.walk(cf_.node)) or pname is not None and any(
+                        isinstance(x, ast.Call) and dotted(x.func) == 'setattr' and x.args and norm(x.args[0]) == pname
+                        for x in ast.walk(cf_.node))
+                    if not writes:
+                        ctx.undecided('COMMIT', f"{spec}: passes self to {callee}",
+                                      f"{callee}() does not assign to attributes of the object it is handed; deeper effects not followed")
+                        continue
                 ctx.check(ok, 'COMMIT', f"{spec}: passes self to {callee}",
                           'TractParser only reads/copies from its parent (checked below)',
-                          f"self escapes to {callee}() outside `if commit`",
+                          f"self escapes to {callee}() outside `if commit`, and {callee}() assigns to its attributes",
                           key=f"COMMIT|{spec}|escape|{callee}")
     ctx.floor('self effects in commit methods', n_eff, 4)
 
